@@ -154,6 +154,10 @@ SITES = {
     'act-stdin-from-program-transformed-by-run': ('act', ['$ act-default'], ["stdin = 'text' -transformed-by run % the-site"]),
     'act-stdin-option-from-program': ('act', ['% act-default', '    -stdin -stdout-from % SITE']),
     'act-source-interpreter': ('act', ['source line'], [], ['actor = source % the-site']),
+    # the file-interpreter actor (round 9: C19-r9m1 built its process settings without the timeout); the source file is the
+    # test-case file itself (it exists in the home directory)
+    'act-file-interpreter': ('act', ['t.case'], [], ['actor = file % the-site']),
+    'act-file-interpreter-with-arguments': ('act', ['t.case arg1 arg2'], [], ['actor = file % the-site interpreter-arg']),
     # the variants that ignore the exit code of the program still enforce the timeout (round 6: C19-r6m1 swallowed the
     # time-out of `run -ignore-exit-code` together with the exit code)
     'setup-run-as-transformer-ignoring-exit-code': ('setup', ["file out7.txt = 'text' -transformed-by run -ignore-exit-code % SITE"]),
